@@ -16,6 +16,7 @@ C02-a layout agreement (byte-layout extraction by abstract interpretation of the
 C02-b CRC discipline: in the GPT header encoder the header CRC is computed over [0:92], nothing but the CRC itself is stored into that range afterwards, the reader verifies the same constant range, and the array CRC is computed from the array encoder's output.
 C02-c no lossy narrowing into on-disk LBA/size fields: a conversion to a narrower integer of a value derived from table geometry or a partition's Start/End/Size, on the way into an encoder store, must be dominated by a range test (saturation).
 C02-d GetStart/GetSize multiply in 64 bits (shared with C13-a).
+C02-e sector-unit discipline: in partition/gpt and partition/mbr a value counted in sectors (an LBA field of the table or Start/End of a partition) is converted to or from bytes only with the table's own sector size, never with a literal 512/4096 (the property quantifies over both logical sector sizes).
 Not covered: Start/End/Size reconciliation arithmetic, UTF-16 name handling beyond 'same bytes', the mixed-endian GUID permutation, geometry formulas.`)
 }
 
@@ -33,7 +34,9 @@ func runC02(w *World, r *Report) {
 			r.seen[o.Key()] = o
 		}
 	}
+	c02SectorUnits(w, r)
 	r.Floor("C02-a", r.countRule("C02-a"), 3)
+	r.Floor("C02-e", r.countRule("C02-e"), 10)
 	r.Floor("C02-b", r.countRule("C02-b"), 3)
 	r.Floor("C02-c", r.countRule("C02-c"), 1)
 	r.Floor("C02-d", r.countRule("C02-d"), 4)
@@ -240,5 +243,55 @@ func c02Narrowing(w *World, r *Report) {
 	}
 	if n == 0 {
 		r.Ok("C02-c", "partition/gpt", "no narrowing conversion of geometry into on-disk fields", "partition/gpt", "")
+	}
+}
+
+
+// c02SectorUnits: LBA <-> byte conversions use the configured sector size.
+func c02SectorUnits(w *World, r *Report) {
+	lbaFields := map[string]bool{"partitionFirstLBA": true, "primaryHeader": true, "secondaryHeader": true, "firstDataSector": true, "lastDataSector": true, "Start": true, "End": true}
+	isLBA := func(v ssa.Value) (string, bool) {
+		pv := w.prov(v, provOpts{})
+		for _, rt := range pv.Roots {
+			if rt.Kind == RField && lbaFields[rt.Field.Name()] {
+				return rt.Field.Name(), true
+			}
+			if rt.Kind == RParam && rt.Param != nil && strings.HasSuffix(rt.Param.Name(), "LBA") {
+				return rt.Param.Name(), true
+			}
+		}
+		return "", false
+	}
+	for _, fn := range w.ModFns {
+		pk := w.pkgOf(fn)
+		if pk != "partition/gpt" && pk != "partition/mbr" {
+			continue
+		}
+		k := 0
+		allInstrs(fn, func(ins ssa.Instruction) {
+			bin, ok := ins.(*ssa.BinOp)
+			if !ok || (bin.Op != token.MUL && bin.Op != token.QUO) {
+				return
+			}
+			for side := 0; side < 2; side++ {
+				a, b := bin.X, bin.Y
+				if side == 1 {
+					a, b = b, a
+				}
+				if bin.Op == token.QUO && side == 1 {
+					continue // bytes / sector size is judged on the divisor only when the dividend is a sector count: not a conversion we can type
+				}
+				name, lba := isLBA(a)
+				if !lba {
+					continue
+				}
+				k++
+				c, isConst := constInt(stripConv(b))
+				literal := isConst && (c == 512 || c == 4096)
+				r.Check(!literal, "C02-e", fnName(fn), fmt.Sprintf("sector count (%s) scaled by the table's sector size #%d", name, k), w.relFile(bin.Pos()), "",
+					fmt.Sprintf("a sector count derived from %s is scaled by the literal %d instead of the table's logical sector size: on a disk with the other supported sector size the table is written to or read from the wrong byte offsets", name, c))
+				return
+			}
+		})
 	}
 }
